@@ -6,6 +6,8 @@ pub mod c04;
 pub mod c12;
 pub mod c10;
 pub mod c06;
+pub mod c13;
+pub mod c14;
 pub mod c20;
 
 pub fn run(prop: &str, ctx: &mut Ctx) -> Option<Report> {
@@ -15,6 +17,8 @@ pub fn run(prop: &str, ctx: &mut Ctx) -> Option<Report> {
         "C12" => Some(c12::run(ctx)),
         "C10" => Some(c10::run(ctx)),
         "C06" => Some(c06::run(ctx)),
+        "C13" => Some(c13::run(ctx)),
+        "C14" => Some(c14::run(ctx)),
         "C20" => Some(c20::run(ctx)),
         _ => None,
     }
